@@ -17,7 +17,7 @@ RULE = ('case = a sim chain of 4..9 blocks with 1..64 real transactions each; fo
 ASSUMPTIONS = ['SHA-256d collision resistance', 'txid of the generated legacy transactions taken from an independent parser (vlib/ref/minitx.py)',
                'mutations that leave the recomputed root unchanged (side flip of a duplicated last node, position bits above the tree depth) '
                'are expected to still verify: the statement\'s criterion is met; counted as ineffective']
-REQUIRED_HITS = ['planted.checked', 'reorg.in_flight_checked', 'reorg.cache_checked', 'reuse.checked', 'genuine.accepted', 'genuine.via_single_batch', 'mut.branch_digit', 'mut.pos_bit', 'mut.truncate', 'mut.extend', 'mut.tx_byte',
+REQUIRED_HITS = ['reorg.tip_replaced_by_subscription_checked', 'reorg.cache_checked_batch_in_flight', 'planted.checked', 'reorg.in_flight_checked', 'reorg.cache_checked', 'reuse.checked', 'genuine.accepted', 'genuine.via_single_batch', 'mut.branch_digit', 'mut.pos_bit', 'mut.truncate', 'mut.extend', 'mut.tx_byte',
                  'mut.height', 'mut.height_no_header', 'mut.foreign_proof', 'mut.ineffective_still_verifies', 'shape.odd_level', 'shape.single_tx',
                  'shape.64']
 MAXT = (1 << 255) - 1
@@ -280,6 +280,57 @@ async def _run(rec, case):
     # model the valid prefix of the batch that was legitimately stored
     for k in range(min(j, len(hdrs) - tip)):
         chain.append(batch[k])
+    # ---- (4) one-block reorganisation delivered as a header subscription update: the server announces another block at the height of our
+    # tip (it links to the stored parent, so connect() simply overwrites the tip).  A transaction verified in the old tip block and served
+    # from the cache afterwards is "verified at a height" whose stored header no longer commits to it.
+    tipn = len(hdrs) - 1
+    stored_now = bytes(hdrs.io.getvalue())
+    tip_block = None
+    for hh_, blk_ in enumerate(blocks):
+        if hh_ == tipn and hh_ < len(chain) and stored_now[tipn * 112:(tipn + 1) * 112] == chain[hh_]:
+            tip_block = blk_
+    if tip_block is None:
+        # the tip was stored by scenario (3): append one block of our own so that there is a transaction to verify in the tip block
+        tb = new_block(r.choice([1, 2, 4]))
+        base_now = [stored_now[i * 112:(i + 1) * 112] for i in range(len(hdrs))]
+        th = mine_on(base_now, M.root([t[1] for t in tb]), ts_delta=805)
+        if await hdrs.connect(len(hdrs), th) == 1:
+            tip_block, tipn = tb, len(hdrs) - 1
+            stored_now = bytes(hdrs.io.getvalue())
+    if tip_block:
+        ti = r.randrange(len(tip_block))
+        traw, tleaves = tip_block[ti][0], [t[1] for t in tip_block]
+        ttxid = minitx.parse(traw)['txid']
+        tproof = {'merkle': [b[::-1].hex() for b in M.branch(tleaves, ti)], 'pos': ti, 'block_height': tipn}
+        net.batch_reply = {ttxid: (traw.hex(), tproof)}
+        got1 = {}
+        async for txs in ledger.request_transactions(((ttxid, tipn),), cached=True):
+            got1.update(txs)
+        if got1 and list(got1.values())[0].is_verified:
+            base_now = [stored_now[i * 112:(i + 1) * 112] for i in range(tipn)]
+            other_tip = mine_on(base_now, M.root([t[1] for t in new_block(1)]), ts_delta=807)
+            try:
+                await asyncio.wait_for(ledger.receive_header([{'height': tipn, 'hex': other_tip.hex()}]), 60)
+            except Exception as e:  # noqa
+                rec.log('tip_replaced.receive_header_raised.' + type(e).__name__)
+            if bytes(hdrs.io.getvalue())[tipn * 112:(tipn + 1) * 112] == other_tip:
+                rec.hit('reorg.tip_replaced_by_subscription_checked')
+                net.batch_reply = {ttxid: (traw.hex(), {'block_height': 0})}
+                got2 = {}
+                async for txs in ledger.request_transactions(((ttxid, 0),), cached=True):
+                    got2.update(txs)
+                for t in got2.values():
+                    if t.is_verified:
+                        rec.violation('C08/verified-without-valid-proof/cached-across-reorganisation/tip-replaced-by-subscription-header',
+                                      f'a transaction verified in the tip block (height {tipn}) was served from the cache as verified after a header '
+                                      f'subscription update replaced the header at that height with another block', {'height': tipn})
+                if tipn < len(chain):
+                    chain[tipn] = other_tip
+            else:
+                rec.log('tip_replaced.header_not_replaced')
+        else:
+            rec.log('tip_replaced.first_lookup_not_verified')
+        rec.case(['tip_replaced', tipn], nontrivial=True)
     # ---- (2) verified through the cache, then a reorganisation replaces its block, then looked up through the cache again
     f = r.randrange(1, nh)                   # first replaced height
     victim = blocks[f] if chain[f] != fork_hdr or f != h else alt
@@ -287,23 +338,62 @@ async def _run(rec, case):
     vraw, vleaves = victim[vi][0], [t[1] for t in victim]
     vtxid = minitx.parse(vraw)['txid']
     vproof = {'merkle': [b[::-1].hex() for b in M.branch(vleaves, vi)], 'pos': vi, 'block_height': f}
-    net.batch_reply = {vtxid: (vraw.hex(), vproof)}
-    first = {}
-    async for txs in ledger.request_transactions(((vtxid, f),), cached=True):
-        first.update(txs)
-    if not first or not list(first.values())[0].is_verified:
-        rec.log('reorg_cache.first_lookup_not_verified(stale tail from scenario 1)')
-        return
-    # the server's new chain: forks at f, is longer than ours; the victim transaction is back in the mempool
-    v2 = list(chain[:f])
+    # variant `overlapping` (added after seeded break C08-G): the first lookup is a batch of two transactions of that block; the hub's
+    # batch reply carries no proof for the second, so the ledger asks for it separately, and the reorganisation lands while that request
+    # is outstanding.  Whatever becomes of the interrupted batch, the first transaction must not be served as verified afterwards.
+    overlapping = len(victim) >= 2 and r.random() < 0.5
+    v2 = list(chain[:f])                      # the server's new chain: forks at f, is longer than ours; the victim is back in the mempool
     for k in range(len(hdrs) - f + 1):
         v2.append(mine_on(v2, M.root([t[1] for t in new_block(1)]), ts_delta=799))
-    net.server_chain = v2
-    try:
-        await asyncio.wait_for(ledger.receive_header([{'height': len(v2) - 1, 'hex': v2[-1].hex()}]), 60)
-    except Exception as e:  # noqa
-        rec.log('reorg_cache.receive_header_raised.' + type(e).__name__)
-        return
+
+    async def reorganise():
+        net.server_chain = v2
+        try:
+            await asyncio.wait_for(ledger.receive_header([{'height': len(v2) - 1, 'hex': v2[-1].hex()}]), 60)
+            return True
+        except Exception as e:  # noqa
+            rec.log('reorg_cache.receive_header_raised.' + type(e).__name__)
+            return False
+
+    if overlapping:
+        oi = (vi + 1) % len(victim)
+        oraw = victim[oi][0]
+        otxid = minitx.parse(oraw)['txid']
+        net.batch_reply = {vtxid: (vraw.hex(), vproof), otxid: (oraw.hex(), None)}
+        net.merkle_reply = {(otxid, f): {'merkle': [b[::-1].hex() for b in M.branch(vleaves, oi)], 'pos': oi, 'block_height': f}}
+        net.gate, net.entered = asyncio.Event(), asyncio.Event()
+
+        async def first_lookup():
+            async for _txs in ledger.request_transactions(((vtxid, f), (otxid, f)), cached=True):
+                pass
+        task = asyncio.get_running_loop().create_task(first_lookup())
+        try:
+            await asyncio.wait_for(net.entered.wait(), 30)
+        except asyncio.TimeoutError:
+            net.gate = None
+            task.cancel()
+            rec.log('reorg_cache.overlap_not_reached')
+            return
+        done = await reorganise()                     # ... while the proof request of the second transaction is outstanding
+        net.gate.set()
+        try:
+            await asyncio.wait_for(task, 30)
+        except Exception as e:  # noqa  (the unchanged tree aborts the interrupted batch with an AttributeError: logged)
+            rec.log('reorg_cache.interrupted_batch_raised.' + type(e).__name__)
+        net.gate = None
+        if not done:
+            return
+        rec.hit('reorg.cache_checked_batch_in_flight')
+    else:
+        net.batch_reply = {vtxid: (vraw.hex(), vproof)}
+        first = {}
+        async for txs in ledger.request_transactions(((vtxid, f),), cached=True):
+            first.update(txs)
+        if not first or not list(first.values())[0].is_verified:
+            rec.log('reorg_cache.first_lookup_not_verified(stale tail from scenario 1)')
+            return
+        if not await reorganise():
+            return
     stored = bytes(hdrs.io.getvalue())
     if stored[f * 112:(f + 1) * 112] != v2[f]:
         rec.log('reorg_cache.reorg_not_applied')
@@ -315,7 +405,7 @@ async def _run(rec, case):
         second.update(txs)
     for t in second.values():
         if t.is_verified:
-            rec.violation('C08/verified-without-valid-proof/cached-across-reorganisation',
+            rec.violation('C08/verified-without-valid-proof/cached-across-reorganisation' + ('/batch-in-flight' if overlapping else ''),
                           f'a transaction verified at height {f} was returned from the cache as verified (height {t.height}) after a reorganisation '
                           f'replaced the block at that height; the stored header there no longer commits to it', {'first_replaced_height': f, 'tx_height': t.height})
     rec.case(['reorg_cache', f, nh], nontrivial=True)
